@@ -398,7 +398,21 @@ def check_releases(case, w, g, jn, jg, tgs, ov, timeout, vio, probe):
         return s if s is not None else slow(n)
 
     best = max(sum(weight(n) for n in p) for p in paths)
-    bases = sorted({sum(length(n) for n in p) for p in paths if sum(weight(n) for n in p) == best})
+    def lengths(n):
+        # a probability-0 node without an SLO weighs nothing on the critical path; whether its runtime still
+        # counts towards the path's time is not something the property settles: both are accepted
+        if spec_nodes[n].get("probability", 1.0) <= 0 and spec_nodes[n].get("slo") is None \
+                and not ov.get("override_slo", -1) > 0:
+            return {0, slow(n)}
+        return {length(n)}
+
+    def path_sums(p):
+        sums = {0}
+        for n in p:
+            sums = {a + b for a in sums for b in lengths(n)}
+        return sums
+
+    bases = sorted(set().union(*[path_sums(p) for p in paths if sum(weight(n) for n in p) == best]))
     dv = g.get("deadline_variance")
     if dv is None:
         dv = [0, 0]  # the loader's own default when the description has none
